@@ -305,3 +305,63 @@ Proof.
   destruct (seg_track_end_to_end opt f (snd t) T pos0 tx ivs fes Hc Hd Htx Htile Hs Hg) as [outs [Hr [He Hne]]].
   exists fes, outs. repeat split; assumption.
 Qed.
+
+(* ------------------------------------------------------------------ Resegment / Fragmentify, total form *)
+From V.c11 Require Import C11FragProofs C11ResegProofs.
+
+Definition bytes_of (ss : list C11Model.fsample) : N := sumN (map (fun s => lenN (C11Model.fs_data s)) ss).
+
+Lemma bytes_of_app a b : bytes_of (a ++ b) = bytes_of a + bytes_of b.
+Proof. unfold bytes_of. rewrite map_app, sumN_app. reflexivity. Qed.
+
+Lemma to_full_data_len l : lenN (flat_map fs_data (map to_full l)) = bytes_of l.
+Proof.
+  unfold bytes_of. induction l as [|s l IH]; [reflexivity|]. cbn [map flat_map sumN]. rewrite lenN_app, IH. reflexivity.
+Qed.
+
+Lemma write_pieces_total opt T pos0 : pos0 < 4611686018427387904 ->
+  forall segs, 16 * lenN (concat segs) + bytes_of (concat segs) + 200 < 2147483648 ->
+  exists fes, Forall2 (fun seg fe => write_segment opt T (map to_full seg) = Ok fe) (nonempty_pieces segs) fes /\
+              Forall (fun fe => seg_guard pos0 fe = true) fes.
+Proof.
+  intros Hpos. induction segs as [|seg r IH]; intros Hb.
+  - exists []. split; constructor.
+  - cbn [concat] in Hb. rewrite lenN_app, bytes_of_app in Hb. destruct (IH ltac:(lia)) as [fes [Hw Hg]].
+    destruct seg as [|s seg']; [exists fes; split; assumption|].
+    destruct (write_segment_total opt T (map to_full (s :: seg')) pos0) as [fe [Hwe Hge]].
+    + discriminate.
+    + rewrite to_full_data_len. unfold lenN in *. rewrite map_length. lia.
+    + exact Hpos.
+    + exists (fe :: fes). cbn [nonempty_pieces filter]. split; constructor; assumption.
+Qed.
+
+Lemma resegment_total d ss segs opt T pos0 (tx : C05Model.trex) :
+  contiguous_list ss = true -> times_fit ss -> 16 * lenN ss + bytes_of ss + 200 < 2147483648 ->
+  tx_track tx = T -> pos0 < 4611686018427387904 ->
+  resegment d ss = Ok segs ->
+  exists fes outs,
+    Forall2 (fun seg fe => write_segment opt T (map to_full seg) = Ok fe) (nonempty_pieces segs) fes /\
+    read_all (read_back tx pos0 []) fes = Ok outs /\ concat outs = map to_full ss.
+Proof.
+  intros Hc Hf Hb Htx Hpos Hr. destruct (resegment_conserves d ss segs Hr) as [Hcat _].
+  destruct (write_pieces_total opt T pos0 Hpos segs ltac:(rewrite Hcat; exact Hb)) as [fes [Hw Hg]].
+  destruct (resegment_end_to_end d ss segs opt T pos0 tx fes Hc Hf ltac:(lia) Htx Hr Hw Hg) as [outs [Hro Hco]].
+  exists fes, outs. repeat split; assumption.
+Qed.
+
+Lemma fragmentify_total dur frags opt T pos0 (tx : C05Model.trex) :
+  contiguous_list (concat frags) = true -> times_fit (concat frags) ->
+  16 * lenN (concat frags) + bytes_of (concat frags) + 200 < 2147483648 ->
+  tx_track tx = T -> pos0 < 4611686018427387904 ->
+  exists pieces fes outs, fragmentify dur frags = Ok pieces /\
+    Forall2 (fun p fe => write_segment opt T (map to_full p) = Ok fe) pieces fes /\
+    read_all (read_back tx pos0 []) fes = Ok outs /\ concat outs = map to_full (concat frags).
+Proof.
+  intros Hc Hf Hb Htx Hpos.
+  destruct (fragmentify_end_to_end dur frags opt T pos0 tx Hc Hf ltac:(lia) Htx) as (pieces & E & Hne & Hall).
+  destruct (fragmentify_conserves dur frags) as (pieces' & E' & Hcat & _). rewrite E in E'. injection E' as <-.
+  destruct (write_pieces_total opt T pos0 Hpos pieces ltac:(rewrite Hcat; exact Hb)) as [fes [Hw Hg]].
+  rewrite (nonempty_pieces_id pieces Hne) in Hw.
+  destruct (Hall fes Hw Hg) as [outs [Hro Hco]].
+  exists pieces, fes, outs. repeat split; assumption.
+Qed.
